@@ -198,6 +198,11 @@ pub fn corpus(rng: &mut Rng) -> Vec<(String, Vec<u8>)> {
 
 /// APNG encoder: `default_in_anim`: the default image is the first frame
 pub fn encode_apng(rng: &mut Rng, img: &HImg, extra_frames: usize, default_in_anim: bool, fdat_parts: usize) -> Vec<u8> {
+    encode_apng_with(rng, img, extra_frames, default_in_anim, fdat_parts, &[])
+}
+
+/// `pre_idat`: ancillary chunks written between PLTE/tRNS and the default image's fcTL / IDAT
+pub fn encode_apng_with(rng: &mut Rng, img: &HImg, extra_frames: usize, default_in_anim: bool, fdat_parts: usize, pre_idat: &[([u8; 4], Vec<u8>)]) -> Vec<u8> {
     let mut out = SIG.to_vec();
     write_chunk(&mut out, b"IHDR", &img.ihdr_bytes());
     let total = extra_frames + default_in_anim as usize;
@@ -209,6 +214,9 @@ pub fn encode_apng(rng: &mut Rng, img: &HImg, extra_frames: usize, default_in_an
     }
     if let Some(t) = img.trns_bytes() {
         write_chunk(&mut out, b"tRNS", &t);
+    }
+    for (n, d) in pre_idat {
+        write_chunk(&mut out, n, d);
     }
     let mut seq = 0u32;
     let fctl = |seq: u32, w: u32, h: u32, x: u32, y: u32, rng: &mut Rng| -> Vec<u8> {
@@ -304,6 +312,37 @@ pub fn mutations(rng: &mut Rng, file: &[u8], stride: usize) -> Vec<(String, Vec<
                 let mut l = list.clone();
                 l[k].1.resize(newlen, 0);
                 out.push((format!("len#{}={}", k, newlen), rebuild(&l)));
+            }
+        }
+        // filter-type bytes rewritten inside a VALID zlib stream with valid CRCs (what byte flips of the
+        // compressed data never reach): legal types, the enum's heuristic numbers 5..9, and beyond
+        if let Ok(d) = crate::pngparse::decode(file) {
+            let mut filtered: Vec<u8> = Vec::new();
+            let mut offs: Vec<usize> = vec![];
+            {
+                let lines = d.img.lines();
+                let body = d.img.filtered(|_| 0);
+                let mut off = 0;
+                for (_, _, l) in lines {
+                    offs.push(off);
+                    off += 1 + l.len();
+                }
+                filtered.extend_from_slice(&body);
+            }
+            for &row in [0usize, offs.len() / 2, offs.len().saturating_sub(1)].iter() {
+                if row >= offs.len() { continue; }
+                for ft in [1u8, 4, 5, 6, 7, 8, 9, 10, 128, 255] {
+                    let mut f2 = filtered.clone();
+                    f2[offs[row]] = ft;
+                    let z = miniz_oxide::deflate::compress_to_vec_zlib(&f2, 6);
+                    let mut l: Vec<([u8; 4], Vec<u8>)> = list.iter().filter(|c| &c.0 != b"IDAT").cloned().collect();
+                    let at = l.iter().position(|c| &c.0 == b"IEND").unwrap_or(l.len());
+                    // keep IDAT where the first IDAT was (before any post-IDAT chunks)
+                    let first_idat = list.iter().position(|c| &c.0 == b"IDAT").unwrap_or(at);
+                    let before: usize = list[..first_idat].iter().filter(|c| &c.0 != b"IDAT").count();
+                    l.insert(before.min(l.len()), (*b"IDAT", z));
+                    out.push((format!("refilter#{}={}", row, ft), rebuild(&l)));
+                }
             }
         }
         // header field edits
